@@ -3,6 +3,7 @@
 set -e
 V=$(cd "$(dirname "$0")/.." && pwd)
 cd "$V"
+if [ -n "$(git status --porcelain --untracked-files=no)" ]; then echo "working tree not clean: commit first"; exit 1; fi
 git merge -q "$1" -m "merge $1" >/dev/null 2>&1 || true
 for f in coq/Extract.v coq/Makefile.conf coq/_CoqProject coq/.Makefile.d coq/Makefile; do
   git rm -q --cached -f "$f" >/dev/null 2>&1 || true
